@@ -297,6 +297,24 @@ def stepC10 (d : DSt) (op : String) (got : String) : StepResult DSt :=
           (expectedAt info.sent info.frames.length info.handed i)
           (d.judgeRx && info.judged && !dup) dup s!"rx {id} {i}" (i :: info.handed)
     | _, _ => { st := d, expected := some "skip" }
+  | ["rxs", id, i, _chunk] =>
+    -- the frame arrives over the history's STREAM connection (real readTlvStream in front of the link
+    -- service, reads that never end on a block boundary): framing is the identity on blocks (C11), so
+    -- the receiver sees exactly what `rx` hands it
+    if !d.active then { st := d, expected := some "skip" } else
+    match d.msgs.find? (·.id = id), i.toNat? with
+    | some info, some i =>
+      match info.frames[i]? with
+      | none => { st := d, expected := some "skip" }
+      | some frame =>
+        let dup := info.handed.contains i
+        let r := rxCommon d crash got id info frame info.sent
+          (expectedAt info.sent info.frames.length info.handed i)
+          (d.judgeRx && info.judged && !dup) dup s!"rxs {id} {i}" (i :: info.handed)
+        let down : List SpecFail := if got.startsWith "stream-down" then
+          [⟨"delivered-exactly-once", "stream-face-down", s!"rxs {id} {i}: the stream receive loop returned or hung on a well-formed stream of LP frames: {(got.take 120).toString}"⟩] else []
+        { r with cov := r.cov ++ ["rx-over-stream"], spec := r.spec ++ down }
+    | _, _ => { st := d, expected := some "skip" }
   | ["rxb", id] =>
     -- the packet itself arrives bare (no LpPacket): delivered as it is, without token and mark
     if !d.active then { st := d, expected := some "skip" } else
